@@ -201,6 +201,12 @@ class Interp:
                 import cubed
                 return cubed.map_blocks(_neg, a[0], dtype=a[0].dtype)
             return -a[0]
+        if op == "map_blocks_np_first":      # a non-cubed first argument: the helper array must get the operand's spec
+            w = np.full((1,) * a[0].ndim, 3, dtype=np.int64)       # one block, broadcast against every block of the operand
+            if self.is_cubed:
+                import cubed
+                return cubed.map_blocks(_mul, w, a[0], dtype=a[0].dtype, chunks=a[0].chunks)
+            return w * a[0]
         if op == "split_sum":      # reduction with explicit split_every (cubed extension)
             se = kw.pop("split_every", None)
             if self.is_cubed:
@@ -229,6 +235,10 @@ class Interp:
 
 def _neg(x):
     return -x
+
+
+def _mul(x, y):
+    return x * y
 
 
 def _moving_sum_fn(depth, ndim):
